@@ -45,7 +45,9 @@ func IndexFromFile(ctx context.Context,
 		},
 	}
 
-	// If our input file has a catar header, copy its feature flags into the index
+	// If our input file has a catar header, copy its feature flags into the index, but
+	// leave the digest flag as set above according to the digest the chunk IDs are
+	// calculated with
 	f, err := os.Open(name)
 	if err != nil {
 		return index, stats, err
@@ -55,7 +57,7 @@ func IndexFromFile(ctx context.Context,
 	if err == nil {
 		switch t := piece.(type) {
 		case FormatEntry:
-			index.Index.FeatureFlags |= t.FeatureFlags
+			index.Index.FeatureFlags |= t.FeatureFlags &^ CaFormatSHA512256
 		}
 	}
 	f.Close()
